@@ -57,6 +57,7 @@ class C30(Check):
         fs = FileSet(os.path.join(root, "d", "*.txt")) if use_dir else None
         ops = []
         content_seen: dict = {}
+        dir_seen = None
 
         def tick():
             k = ch.choice(4, "clock")
@@ -258,6 +259,22 @@ class C30(Check):
                 if out.violations:
                     break
                 if d is not None:
+                    # independent model of the directory: its (fresh) hash changes exactly when
+                    # the set of (relative path, size, mtime) of the files beneath it does
+                    state = tuple(sorted(
+                        (os.path.relpath(os.path.join(r, f), d.path),) + (lambda st: (st.st_size, st.st_mtime))(os.stat(os.path.join(r, f)))
+                        for r, _ds, fl in os.walk(d.path) for f in fl))
+                    fresh_dir = Dir(d.path).hash
+                    if dir_seen is not None and (dir_seen[0] == state) != (dir_seen[1] == fresh_dir):
+                        violate("C30.dir_hash_tracks_members", f"Dir:{op[0]}",
+                                {"members_equal": dir_seen[0] == state,
+                                 "hash_equal": dir_seen[1] == fresh_dir,
+                                 "members": [m[0] for m in state][:6]})
+                        break
+                    if dir_seen is not None and dir_seen[0] != state and \
+                            any(os.sep in m[0] for m in set(state) ^ set(dir_seen[0])):
+                        out.probe("nested_member_changes")
+                    dir_seen = (state, fresh_dir)
                     for coll, name in ((d, "Dir"), (fs, "FileSet")):
                         fresh = type(coll)(coll.path if name == "Dir" else coll.pattern).hash
                         valid = coll.is_valid()
